@@ -782,6 +782,9 @@ class Prop:
             v6 += forms
         for t in v6:
             lines.append("ip6 %s %d" % (t, rng.choice(ports)))
+            if rng.random() < 0.3:
+                # the same address with a scope id (link-local peers, setScopeId): the text forms must not change
+                lines.append("ip6 %s %d %d" % (t, rng.choice(ports), rng.choice([1, 2, 3, 7, 65535, 4294967295])))
         for bits in (16, 32, 64):
             vals = [0, 1, 255, 256, 0x0102, 0x01020304, 0x0102030405060708, (1 << bits) - 1, 1 << (bits - 1), (1 << (bits - 1)) - 1, 0xff00, 0x00ff]
             vals += [rng.randrange(1 << bits) for _ in range(n // 4)] + [1 << k for k in range(bits)]
